@@ -869,29 +869,223 @@ Lemma wf_report_exists evs :
   forallb wf_event evs = true -> exists rep, junit_report evs = Some rep.
 Proof. apply junit_fold_total. Qed.
 
-(* ================================================================= XmlString vs XML 1.0 Char *)
+(* ================================================================= stored text vs XML 1.0 Char *)
 
-Lemma xmlstring_not_wellformed_witness :
+(* ---- the escape stripper only deletes, except that it may write U+FFFD *)
+
+Lemma feed_out bs : forall st st' o,
+  feed st bs = (st', o) -> forall x, In x o -> x = 65533 \/ (x = 10 /\ In 10 bs).
+Proof.
+  induction bs as [|b r IH]; intros st st' o H x Hx; cbn [feed] in H.
+  - injection H as <- <-. destruct Hx.
+  - destruct (match st with
+              | VGround => (VGround, if b <=? 159 then [] else [65533])
+              | _ => let '(st'0, ex) := byte_step st b in
+                     (st'0, if ex && (b =? 10) then [10] else [])
+              end) as [st1 o1] eqn:E1.
+    destruct (feed st1 r) as [st2 o2] eqn:E2. injection H as <- <-.
+    apply in_app_or in Hx as [Hx|Hx].
+    + assert (G : x = 65533 \/ (x = 10 /\ b = 10)).
+      { destruct st;
+          try (destruct (byte_step _ b) as [s0 ex]; injection E1 as <- <-;
+               destruct (ex && (b =? 10)) eqn:Eb;
+               [apply andb_true_iff in Eb as [_ Eb]; apply N.eqb_eq in Eb;
+                destruct Hx as [<-|[]]; right; auto|destruct Hx]).
+        injection E1 as <- <-. destruct (b <=? 159); [destruct Hx|].
+        destruct Hx as [<-|[]]. left; reflexivity. }
+      destruct G as [G|[G1 G2]]; [left; exact G|right; split; [exact G1|left; exact G2]].
+    + destruct (IH _ _ _ E2 x Hx) as [G|[G1 G2]]; [left; exact G|right; split; [exact G1|right; exact G2]].
+Qed.
+
+Lemma utf8_char_lf c : In 10 (utf8_char c) -> c = 10.
+Proof.
+  unfold utf8_char.
+  destruct (c <? 128) eqn:E1; [intros [H|[]]; exact H|].
+  destruct (c <? 2048); [cbn [In]; lia|].
+  destruct (c <? 65536); cbn [In]; lia.
+Qed.
+
+Lemma ansi_strip_keeps_lf : ansi_strip_keeps 10 = true.
+Proof. reflexivity. Qed.
+
+Lemma vte_char_out st c st' o :
+  vte_char st c = (st', o) ->
+  forall x, In x o -> x = 65533 \/ (x = c /\ ansi_strip_keeps c = true).
+Proof.
+  intros H x Hx.
+  assert (F : feed st (utf8_char c) = (st', o) -> x = 65533 \/ (x = c /\ ansi_strip_keeps c = true)).
+  { intros Hf. destruct (feed_out _ _ _ _ Hf x Hx) as [G|[G1 G2]]; [left; exact G|].
+    apply utf8_char_lf in G2. subst. right; split; reflexivity. }
+  destruct st; cbn [vte_char] in H; try (apply F; exact H).
+  destruct (c =? 27); [injection H as <- <-; destruct Hx|].
+  injection H as <- <-. destruct (ansi_strip_keeps c) eqn:Ek; [|destruct Hx].
+  destruct Hx as [<-|[]]. right; split; reflexivity.
+Qed.
+
+Lemma ansi_strip_from_out s : forall st x,
+  In x (ansi_strip_from st s) -> x = 65533 \/ (In x s /\ ansi_strip_keeps x = true).
+Proof.
+  induction s as [|c r IH]; intros st x Hx; cbn [ansi_strip_from] in Hx; [destruct Hx|].
+  destruct (vte_char st c) as [st' o] eqn:E. apply in_app_or in Hx as [Hx|Hx].
+  - destruct (vte_char_out _ _ _ _ E x Hx) as [G|[-> G]]; [left; exact G|].
+    right; split; [left; reflexivity|exact G].
+  - destruct (IH _ _ Hx) as [G|[G1 G2]]; [left; exact G|right; split; [right; exact G1|exact G2]].
+Qed.
+
+Lemma ansi_strip_keeps_fffd : ansi_strip_keeps 65533 = true.
+Proof. reflexivity. Qed.
+
+(* XmlString::new: every character of the result is U+FFFD or a character of the input, and is
+   one that both stages keep *)
+Lemma xmlstring_new_out s x :
+  In x (xmlstring_new s) -> (x = 65533 \/ In x s) /\ xmlstring_keeps x = true.
+Proof.
+  unfold xmlstring_new, ansi_strip. intros H. apply filter_In in H as [H1 H2].
+  unfold xmlstring_keeps. rewrite H2, andb_true_r.
+  destruct (ansi_strip_from_out _ _ _ H1) as [->|[G1 G2]].
+  - split; [left; reflexivity|reflexivity].
+  - split; [right; exact G1|exact G2].
+Qed.
+
+Lemma known_nonchar_fffd : known_nonchar 65533 = false.
+Proof. reflexivity. Qed.
+
+Lemma existsb_false_In {A} (f : A -> bool) l x : existsb f l = false -> In x l -> f x = false.
+Proof.
+  intros H Hx. destruct (f x) eqn:E; [|reflexivity].
+  assert (existsb f l = true) by (apply existsb_exists; exists x; auto). congruence.
+Qed.
+
+(* the repaired pipeline *)
+Lemma stored_text_out s x :
+  In x (stored_text s) -> (x = 65533 \/ In x s) /\ nextest_keeps x = true.
+Proof.
+  unfold stored_text, xml_safe, nextest_keeps.
+  destruct (existsb known_nonchar (xmlstring_new s)) eqn:E; intros H.
+  - apply xmlstring_new_out in H as [[->|H1] H2].
+    + split; [left; reflexivity|reflexivity].
+    + apply filter_In in H1 as [H1 H3]. apply xmlstring_new_out in H1 as [H1 _].
+      rewrite H2, H3. split; [exact H1|reflexivity].
+  - pose proof (existsb_false_In _ _ _ E H) as Hn. apply xmlstring_new_out in H as [H1 H2].
+    rewrite H2, Hn. split; [exact H1|reflexivity].
+Qed.
+
+(* per character: what the repaired pipeline keeps is an XML 1.0 Char *)
+Lemma nextest_keeps_xml_char c : is_scalar c = true -> nextest_keeps c = true -> xml_char c = true.
+Proof.
+  unfold is_scalar, nextest_keeps, xmlstring_keeps, ansi_strip_keeps, xmlstring_filter_keeps,
+    known_nonchar, in_rng, xml_char.
+  lia.
+Qed.
+
+(* C17_stored_text_xml_chars: for EVERY captured string (any length, any mix of escape
+   sequences, controls, non-characters) every character of the stored text is an XML 1.0 Char *)
+Lemma stored_text_xml_chars s :
+  forallb is_scalar s = true -> forallb xml_char (stored_text s) = true.
+Proof.
+  intros Hs. apply forallb_forall. intros x Hx.
+  destruct (stored_text_out _ _ Hx) as [[->|Hin] Hk].
+  - reflexivity.
+  - apply nextest_keeps_xml_char; [|exact Hk].
+    rewrite forallb_forall in Hs. apply Hs, Hin.
+Qed.
+
+(* ... and none of them is one of the two non-characters, whatever the input is made of *)
+Lemma stored_text_no_nonchar s : existsb known_nonchar (stored_text s) = false.
+Proof.
+  destruct (existsb known_nonchar (stored_text s)) eqn:E; [|reflexivity].
+  apply existsb_exists in E as (x & Hx & Hn). apply stored_text_out in Hx as [_ Hk].
+  unfold nextest_keeps in Hk. rewrite Hn in Hk. rewrite andb_false_r in Hk. discriminate.
+Qed.
+
+(* ---- text without ESC: the pipeline is the per-character filter *)
+
+Lemma ansi_strip_esc_free s :
+  forallb (fun c => negb (c =? 27)) s = true -> ansi_strip s = filter ansi_strip_keeps s.
+Proof.
+  unfold ansi_strip. induction s as [|c r IH]; intros H; [reflexivity|].
+  cbn [forallb] in H. apply andb_true_iff in H as [Hc Hr].
+  cbn [ansi_strip_from vte_char filter]. apply negb_true_iff in Hc. rewrite Hc.
+  rewrite (IH Hr). destruct (ansi_strip_keeps c); reflexivity.
+Qed.
+
+Lemma filter_filter {A} (f g : A -> bool) l :
+  filter f (filter g l) = filter (fun x => g x && f x) l.
+Proof.
+  induction l as [|x l IH]; [reflexivity|]. cbn [filter].
+  destruct (g x); cbn [filter andb]; [destruct (f x)|]; now rewrite IH.
+Qed.
+
+Lemma filter_ext_in {A} (f g : A -> bool) l :
+  (forall x, In x l -> f x = g x) -> filter f l = filter g l.
+Proof.
+  induction l as [|x l IH]; intros H; [reflexivity|]. cbn [filter].
+  rewrite (H x (or_introl eq_refl)), IH; [reflexivity|]. intros y Hy. apply H. right; exact Hy.
+Qed.
+
+Lemma xmlstring_new_esc_free s :
+  forallb (fun c => negb (c =? 27)) s = true -> xmlstring_new s = filter xmlstring_keeps s.
+Proof.
+  intros H. unfold xmlstring_new. rewrite (ansi_strip_esc_free _ H), filter_filter. reflexivity.
+Qed.
+
+Lemma xmlstring_keeps_not_esc c : xmlstring_keeps c = true -> negb (c =? 27) = true.
+Proof. unfold xmlstring_keeps, ansi_strip_keeps, xmlstring_filter_keeps, in_rng. lia. Qed.
+
+Lemma stored_text_esc_free s :
+  forallb (fun c => negb (c =? 27)) s = true -> stored_text s = filter nextest_keeps s.
+Proof.
+  intros H. unfold stored_text, xml_safe. rewrite (xmlstring_new_esc_free _ H).
+  destruct (existsb known_nonchar (filter xmlstring_keeps s)) eqn:E.
+  - rewrite xmlstring_new_esc_free.
+    + rewrite !filter_filter. apply filter_ext_in. intros x _. unfold nextest_keeps.
+      destruct (xmlstring_keeps x), (known_nonchar x); reflexivity.
+    + apply forallb_forall. intros x Hx. apply filter_In in Hx as [Hx _].
+      apply filter_In in Hx as [_ Hx]. apply xmlstring_keeps_not_esc, Hx.
+  - rewrite <- (filter_filter (fun c => negb (known_nonchar c)) xmlstring_keeps).
+    symmetry. transitivity (filter (fun _ => true) (filter xmlstring_keeps s)).
+    + apply filter_ext_in. intros x Hx. rewrite (existsb_false_In _ _ _ E Hx). reflexivity.
+    + clear. induction (filter xmlstring_keeps s) as [|x l IH]; [reflexivity|].
+      cbn [filter]. now rewrite IH.
+Qed.
+
+(* ---- regression witnesses: quick-junit's XmlString::new ALONE (what nextest relied on before
+   a19c0df) keeps U+FFFF, which is not an XML 1.0 Char *)
+Lemma xmlstring_alone_not_wellformed_witness :
   exists c, is_scalar c = true /\ xmlstring_keeps c = true /\ xml_char c = false.
 Proof. exists 65535. vm_compute. auto. Qed.
+
+Lemma xmlstring_alone_not_wellformed_text :
+  exists s, forallb is_scalar s = true /\ forallb xml_char (xmlstring_new s) = false
+            /\ forallb xml_char (stored_text s) = true.
+Proof. exists [65; 65535; 66; 65534]. vm_compute. auto. Qed.
 
 Lemma xmlstring_outside_known c :
   is_scalar c = true -> known_nonchar c = false -> xmlstring_keeps c = true -> xml_char c = true.
 Proof.
-  unfold is_scalar, known_nonchar, xmlstring_keeps, ansi_strip_keeps, xmlstring_filter_keeps, xml_char.
+  intros H1 H2 H3. apply nextest_keeps_xml_char; [exact H1|].
+  unfold nextest_keeps. rewrite H2, H3. reflexivity.
+Qed.
+
+(* what survives outside escape sequences: LF, and everything from U+0020 up except the C1
+   controls and the two non-characters *)
+Lemma nextest_keeps_spec c :
+  nextest_keeps c = true <->
+  (c = 10 \/ (32 <= c /\ ~ (128 <= c <= 159) /\ c <> 65534 /\ c <> 65535)).
+Proof.
+  unfold nextest_keeps, xmlstring_keeps, ansi_strip_keeps, xmlstring_filter_keeps, known_nonchar,
+    in_rng.
   lia.
 Qed.
 
-(* what survives: everything from U+0020 up, and LF *)
-Lemma xmlstring_keeps_spec c : xmlstring_keeps c = true <-> (32 <= c \/ c = 10).
-Proof. unfold xmlstring_keeps, ansi_strip_keeps, xmlstring_filter_keeps. lia. Qed.
-
-(* the legal XML characters that are nevertheless removed: TAB and CR (dropped by the escape
-   stripper; the replace() filter would have kept them) *)
-Lemma xmlstring_lost_chars c :
-  (xml_char c = true /\ xmlstring_keeps c = false) <-> (c = 9 \/ c = 13).
+(* the legal XML characters that are nevertheless removed: TAB, CR and the C1 controls (all
+   dropped by the escape stripper; the replace() filter would have kept them) *)
+Lemma nextest_lost_chars c :
+  (xml_char c = true /\ nextest_keeps c = false) <-> (c = 9 \/ c = 13 \/ 128 <= c <= 159).
 Proof.
-  unfold xmlstring_keeps, ansi_strip_keeps, xmlstring_filter_keeps, xml_char. lia.
+  unfold nextest_keeps, xmlstring_keeps, ansi_strip_keeps, xmlstring_filter_keeps, known_nonchar,
+    in_rng, xml_char.
+  lia.
 Qed.
 
 Lemma finished_counts_events n evs :
